@@ -1,6 +1,6 @@
 (** Correspondence check for C16.  Depends on the model only (no proofs). *)
 From Coq Require Import String List NArith Bool.
-From Fabio Require Import Lib.Outcome Lib.Bytes Lib.Verdict Model.GrpcPool Model.GrpcTransport Model.GrpcKeepalive Model.GrpcListeners.
+From Fabio Require Import Lib.Outcome Lib.Bytes Lib.Verdict Model.GrpcPool Model.GrpcTransport Model.GrpcKeepalive Model.GrpcListeners Model.GrpcInFlight.
 From Fabio Require Model.Glob Model.Lookup.
 Import ListNotations.
 Local Open Scope N_scope.
@@ -67,6 +67,14 @@ Inductive xsstep := XS (s : sstep) | XSLose (u : url).
    that loses its connections *)
 Inductive lhstep := LHCall (i : nat) (m : md) (upath : option str) (c : hchosen) | LHSetTable (t : table) | LHTickAll | LHLose (u : url).
 
+(* a history in which calls stay in flight while other things happen: an ordinary step; a call
+   that begins, reaches backend [c] (which saw [bv]) and is held there; the backend ends the call
+   [id] and the caller has [cv] of it (or had it already, when the call was cut earlier) *)
+Inductive fhstep :=
+| FH (st : hstep)
+| FHBegin (id : N) (ci : callin) (c : hchosen) (bv : bview)
+| FHEnd (id : N) (cv : cview).
+
 Record qobs := mkqobs { qb_bv : option bview; qb_cv : cview; qb_pings : N; qb_begun : N; qb_ended : N }.
 
 Inductive case :=
@@ -105,7 +113,13 @@ Inductive case :=
    every call through one of the listeners, evaluated through the machine with one proxy per
    listener (Model/GrpcListeners.v [lrun]): connections begun / ended at each backend -- from
    all listeners together -- after every step *)
-| CListeners (noglob : bool) (down : list url) (groups : list (list bool)) (steps : list lhstep) (obs : list (list cnt)).
+| CListeners (noglob : bool) (down : list url) (groups : list (list bool)) (steps : list lhstep) (obs : list (list cnt))
+(* a history through the real newGrpcProxy listener in which calls are held at their backend
+   across table changes and REAL cleanup ticks, the targets written with whatever scheme
+   (http://host:port/, https://, tcp://, grpc://), evaluated through the machine with calls in
+   flight (Model/GrpcInFlight.v [frun]): connections begun / ended at each backend after every
+   step, both views of every held call *)
+| CInFlight (noglob : bool) (steps : list fhstep) (obs : list (list cnt)).
 
 (* ---- CPool ---- *)
 Fixpoint pool_same (st : list url * pstate) (ops : list pop2) (obs : list pobs) : bool :=
@@ -434,6 +448,95 @@ Definition cview_transparent (sc : script) (cv : cview) : bool :=
 Definition no_msgs (cv : cview) : bool := match cv_msgs cv with [] => true | _ => false end.
 Definition table_has_grpcs (t : table) : bool := existsb (fun u => has_prefix u s_grpcs) (table_urls t).
 
+(* ---- CInFlight: through [frun] ---- *)
+Fixpoint fhist_same (ng : bool) (fs : fstate) (pend : list (N * callin)) (steps : list fhstep) (obs : list (list cnt)) : bool :=
+  match steps, obs with
+  | [], [] => true
+  | st :: rs, b :: rb =>
+      match (match st with
+             | FH h => match hist_ops ng false [] (f_st fs) h with
+                       | Some ops => Some (map FOp ops, pend, true)
+                       | None => None
+                       end
+             | FHBegin id ci ch bv =>
+                 match ch with
+                 | HBackend _ =>
+                     match hist_ops ng false [] (f_st fs) (HCall (ci_md ci) (ci_upath ci) ch) with
+                     | Some [Call m p k] => Some ([FBegin id m p k], (id, ci) :: pend, bview_eqb (fst (relay ci)) bv)
+                     | _ => None
+                     end
+                 | _ => None
+                 end
+             | FHEnd id cv =>
+                 match find (fun x => fst x =? id) pend with
+                 | Some (_, ci) =>
+                     Some ([FEnd id], pend,
+                           if f_delivered fs id then cview_eqb (snd (relay ci)) cv
+                           else (* the connection was closed under the call *)
+                             cv_code cv =? code_canceled)
+                 | None => None
+                 end
+             end) with
+      | None => false
+      | Some (ops, pend', ok) =>
+          let fs' := frun ng fs ops in
+          ok
+          && forallb (fun c => (cn_begun c =? count_dials (s_pool (f_st fs')) (cn_url c))
+                               && (cn_ended c =? count_closed (s_pool (f_st fs')) (cn_url c))) b
+          && fhist_same ng fs' pend' rs rb
+      end
+  | _, _ => false
+  end.
+Definition fhstep_sstep (st : fhstep) : sstep :=
+  match st with
+  | FH h => hstep_sstep h
+  | FHBegin _ _ (HBackend u) _ => SCall (Some u)
+  | FHBegin _ _ _ _ => SCall None
+  | FHEnd _ _ => SCall None
+  end.
+(* the property on the observations alone, for the calls in flight.  [fl]: per call in flight
+   its backend, what the caller sent and what the backend scripted, and whether the backend has
+   been a target of every table in force since the call began.  A call begins at a backend of a
+   route that matches, and the backend has the caller's messages and metadata; when the backend
+   ends a call and has been in the table all the time, the caller has everything -- however many
+   cleanup passes there were in between, whatever scheme the target is written with.  (A call
+   whose backend left the table may be cut: "dropped once the backend leaves the table".) *)
+Fixpoint fcalls_spec (ng : bool) (t : table) (fl : list (N * (url * callin * bool))) (steps : list fhstep) : bool :=
+  match steps with
+  | [] => true
+  | st :: r =>
+      match st with
+      | FH (HSetTable t') =>
+          fcalls_spec ng t' (map (fun x => let '(id, (u, ci, okk)) := x in (id, (u, ci, okk && mem u (table_urls t')))) fl) r
+      | FH _ => fcalls_spec ng t fl r
+      | FHBegin id ci ch bv =>
+          match ch, ci_upath ci with
+          | HBackend u, Some p =>
+              let host := dsthost (ci_md ci) in
+              host_domain host && routed_ok t ng host p u
+              && beq (bv_method bv) (ci_method ci) && md_eqb (bv_md bv) (md_out (ci_md ci))
+              && msgs_eqb (bv_msgs bv) (ci_msgs ci)
+              && fcalls_spec ng t ((id, (u, ci, true)) :: fl) r
+          | _, _ => false
+          end
+      | FHEnd id cv =>
+          match find (fun x => fst x =? id) fl with
+          | Some (_, (_, ci, okk)) => implb okk (cview_transparent (ci_script ci) cv)
+          | None => false
+          end
+          && fcalls_spec ng t fl r
+      end
+  end.
+(* a call was in flight during a cleanup tick *)
+Fixpoint spans_tick (open : list N) (ticked : list N) (steps : list fhstep) : bool :=
+  match steps with
+  | [] => false
+  | FHBegin id _ _ _ :: r => spans_tick (id :: open) ticked r
+  | FH HTick :: r => spans_tick open (open ++ ticked) r
+  | FHEnd id _ :: r => memN id ticked || spans_tick (filter (fun i => negb (i =? id)) open) ticked r
+  | _ :: r => spans_tick open ticked r
+  end.
+
 (* ---- CQuiet ---- *)
 Fixpoint quiet_same (items : list qitem) (outs : list qout) (obs : list qobs) : bool :=
   match items, outs, obs with
@@ -597,4 +700,13 @@ Definition check_case (c : case) : N :=
       if same then verdict true strict (if lenient then Some 2 else None) nontriv
       else if lenient then (if strict && repaired then v_agree else v_disagree)
       else v_disagree_spec_fails
+  | CInFlight ng steps obs =>
+      if negb (forallb (fun st => match st with FH (HSetTable t) => table_domain t | _ => true end) steps) then v_disagree else
+      let same := fhist_same ng (f_init []) [] steps obs in
+      let spec := match obs with
+                  | [] => true
+                  | b0 :: _ => sess_spec [] (map (fun c => mkcnt (cn_url c) 0 0) b0) (map fhstep_sstep steps) obs
+                  end
+                  && fcalls_spec ng [] [] steps in
+      verdict same spec None (spans_tick [] [] steps)
   end.
